@@ -174,6 +174,25 @@ func init() {
 		fc.oblige(fr, "index", "binary.PutUvarint: buffer of at least 10 bytes", reach, sx(">=", b.Len, "10"), false, nil)
 		fc.sc.assume(tAnd(sx("<=", "1", n), sx("<=", n, "10")))
 		fc.havocElems(st, b)
+		// the canonical LEB128 encoding: every byte but the last has the
+		// continuation bit, the last has not (and is non-zero unless it is the only
+		// one), and the 7-bit groups add up to the value
+		fc.byteAxiom(fc.elemArray(st, b))
+		inner := tSel(fc.elemArray(st, b), b.Arr)
+		sum := "0"
+		var facts []string
+		for i := 0; i < 10; i++ {
+			bi := tSel(inner, tAdd(b.Off, num(int64(i))))
+			in := sx("<", num(int64(i)), n)
+			last := tEq(num(int64(i)), sx("-", n, "1"))
+			facts = append(facts, tImp(tAnd(in, tNot(last)), sx(">=", bi, "128")))
+			facts = append(facts, tImp(last, tAnd(sx("<", bi, "128"), tOr(tEq(n, "1"), sx(">=", bi, "1")))))
+			sum = sx("+", sum, tIte(in, sx("*", sx("mod", bi, "128"), pow2(int64(7*i)).String()), "0"))
+		}
+		if len(args) > 1 {
+			facts = append(facts, tEq(sum, args[1].S))
+		}
+		fc.sc.assume(tAnd(facts...))
 		return intVal(types.Typ[types.Int], n)
 	}
 }
